@@ -101,8 +101,8 @@ def ls1(model):
     _oblig(ev, r)
     verified.add(f.qname)
     # --- tex2txt.tex2txt (single-language return, --unkn branch, phrase replacement)
-    f = model.func('tex2txt.tex2txt')
-    ev = MLEval(model, f, call_summary=_ml_summary(verified))
+    f = model.inl().func('tex2txt.tex2txt')
+    ev = MLEval(model.inl(), f, call_summary=_ml_summary(verified))
     ev.run(f.body, ev.initial())
     if _check_return_pairs(ev, r, what='result of tex2txt (plain text, position map)') == 0:
         r.fail(f.node, 'tex2txt no longer returns a (text, positions) pair')
@@ -310,8 +310,8 @@ def ls1_ml(model):
     ev.run(f.body, ev.initial())
     _oblig(ev, r)
     # --- tex2txt.tex2txt, multi-language branch
-    f = model.func('tex2txt.tex2txt')
-    ev = MLEval(model, f, call_summary=_ml_summary(verified))
+    f = model.inl().func('tex2txt.tex2txt')
+    ev = MLEval(model.inl(), f, call_summary=_ml_summary(verified))
     ev.backedge_hooks.append(_pair_var_hook(ev, r))
     ev.run(f.body, ev.initial())
     _oblig(ev, r)
